@@ -374,6 +374,14 @@ impl Exec {
             }
             return "ok".into();
         }
+        if op == "hll.eq" {
+            // PartialEq: same precision, registers and hasher
+            return match (self.insts.get(&id), self.insts.get(&pu(t[2]))) {
+                (Some(Inst::Hll(a)), Some(Inst::Hll(b2))) => b(a == b2),
+                (Some(Inst::Poisoned), _) | (_, Some(Inst::Poisoned)) => "poisoned".into(),
+                _ => panic!("type"),
+            };
+        }
         if op == "hll.rebuild" {
             if let Some(Inst::Hll(h)) = self.insts.get(&id) {
                 let n = HyperLogLog::with_registers_and_hash(h.b(), h.registers().to_vec(), *h.buildhasher());
